@@ -183,6 +183,8 @@ def r12_4_refusal(ctx: Ctx) -> RuleResult:
     from ..absint import ConstV, Iv
     from ..order import build, run, ranks_for
 
+    from ..order import calendar_compare_stub
+
     rr = RuleResult("R12.4", "cross-calendar ordering raises; ordering against unrelated types is refused", min_instances=60)
     M = ctx.M
     ORD = ["__lt__", "__le__", "__gt__", "__ge__", "compare_to"]
@@ -200,10 +202,12 @@ def r12_4_refusal(ctx: Ctx) -> RuleResult:
             leaks = []
             for rel in [(0,) * n, (-1,) + (0,) * (n - 1), (1,) + (0,) * (n - 1)]:
                 ps = [p.arg for p in f.value_params]
+                rk = ranks_for(a, b, rel)
+                stubs = {"CalendarSystem._compare": calendar_compare_stub(rk)}
                 if name in ("max", "min"):
-                    out = run(ctx, f, None, {ps[0]: a.obj, ps[1]: b.obj}, ranks_for(a, b, rel))
+                    out = run(ctx, f, None, {ps[0]: a.obj, ps[1]: b.obj}, rk, stubs)
                 else:
-                    out = run(ctx, f, a.obj, {ps[0]: b.obj}, ranks_for(a, b, rel))
+                    out = run(ctx, f, a.obj, {ps[0]: b.obj}, rk, stubs)
                 rr.states += 1
                 if out.values:
                     leaks.append((rel, out.values[0]))
@@ -242,7 +246,7 @@ def r12_1b_hebrew_compare(ctx: Ctx) -> RuleResult:
     from ..model import UNKNOWN
     from ..order import REL, lex, orderings, run
 
-    rr = RuleResult("R12.1b", "Hebrew calendar comparison is the civil order in both month numberings", min_instances=2)
+    rr = RuleResult("R12.1b", "calendar comparison: Hebrew = civil order in both month numberings; base = packed order; CalendarSystem._compare delegates in order", min_instances=4)
     M = ctx.M
     c = M.cls("_HebrewYearMonthDayCalculator")
     f = M.find_method(c, "compare")
@@ -303,6 +307,30 @@ def r12_1b_hebrew_compare(ctx: Ctx) -> RuleResult:
         rr.fail(f.qual, f"civil numbering, packed relation {bad[0]}: result {bad[1].values} / {bad[1].escaped[:1]}", ctx.loc(f))
     else:
         rr.ok({"method": f.qual, "numbering": "civil", "orderings": 3})
+    # the base calculator's compare is the packed-value order, and CalendarSystem._compare delegates to the calculator with (lhs, rhs) in order
+    base = M.func("_YearMonthDayCalculator.compare")
+    rr.inst()
+    bad = None
+    for r in (-1, 0, 1):
+        ranks = {"a.packed": 1, "b.packed": 1 - r}
+        out = run(ctx, base, Obj("_YearMonthDayCalculator", {"$exact": Iv(1, 1)}), {"lhs": ymd("a"), "rhs": ymd("b")}, ranks)
+        rr.states += 1
+        if out.sign != r:
+            bad = (REL[r], out)
+    if bad:
+        rr.fail(base.qual, f"packed relation {bad[0]}: result {bad[1].values} / {bad[1].escaped[:1]}", ctx.loc(base))
+    else:
+        rr.ok({"method": base.qual, "orderings": 3})
+    from ..terms import Store, TermEval, show, sym
+
+    cc = M.func("CalendarSystem._compare")
+    rr.inst()
+    outs = TermEval(M, ctx.R, cc, inline_depth=1).run(Store({"lhs": sym("LHS"), "rhs": sym("RHS")}))
+    good = len(outs) == 1 and outs[0][0] is not None and outs[0][0][0] == "call" and outs[0][0][1].endswith(".compare") and tuple(outs[0][0][2]) == (sym("LHS"), sym("RHS"))
+    if good:
+        rr.ok({"method": cc.qual, "delegates": show(outs[0][0])})
+    else:
+        rr.fail(cc.qual, f"must return calculator.compare(lhs, rhs); found {[show(o[0]) for o in outs]}", ctx.loc(cc))
     return rr
 
 
